@@ -21,6 +21,7 @@ package common
 import (
 	"encoding/binary"
 	"fmt"
+	"math"
 	"strings"
 	"sync"
 
@@ -348,14 +349,27 @@ func (bA *BitArray) ToProto() *kprotobits.BitArray {
 }
 
 // FromProto sets a protobuf BitArray to the given pointer.
-func (bA *BitArray) FromProto(protoBitArray *kprotobits.BitArray) {
+// It returns an error (and leaves bA untouched) if the protobuf value is not a
+// well-formed bit array: a negative size, or a number of words other than
+// ceil(Bits/64). Every operation of BitArray relies on len(Elems) matching Bits.
+func (bA *BitArray) FromProto(protoBitArray *kprotobits.BitArray) error {
 	if protoBitArray == nil {
 		bA = nil
-		return
+		return nil
+	}
+	if protoBitArray.Bits < 0 {
+		return fmt.Errorf("negative Bits: %d", protoBitArray.Bits)
+	}
+	if protoBitArray.Bits > math.MaxInt32 {
+		return fmt.Errorf("too many Bits: %d", protoBitArray.Bits)
+	}
+	if got, exp := int64(len(protoBitArray.Elems)), (protoBitArray.Bits+63)/64; got != exp {
+		return fmt.Errorf("invalid number of Elems: got %d, but exp %d", got, exp)
 	}
 
 	bA.Bits = uint(protoBitArray.Bits)
 	if len(protoBitArray.Elems) > 0 {
 		bA.Elems = protoBitArray.Elems
 	}
+	return nil
 }
